@@ -49,6 +49,17 @@ Definition w_inline_mod : project :=
                      sdef "Top" [ty0 "User"];
                      cmd "get_user" [("arg0", ty0 "User"); ("arg1", ty0 "Top")] (Some (ty0 "User"))])].
 
+(* emit("c", Status::Active { code: 1 }), emit("d", Mode::On), let q = events::Built::new(); emit("f", q):
+   Status, Mode and Built are payload types the tool does not read off the expression *)
+Definition w_payload_expr : project :=
+  [(L "src/lib.rs", [IDef {| d_name := L "Status"; d_derives := serde2; d_kind := DEnum |};
+                     IDef {| d_name := L "Mode"; d_derives := serde2; d_kind := DEnum |};
+                     sdef "Built" [ty0 "i32"]; sdef "Progress" [ty0 "i32"]; sdef "Meta" [ty0 "i32"];
+                     IFn {| fn_name := L "go"; fn_attrs := [[L "tauri"; L "command"]];
+                            fn_params := [(L "app", app_handle); (L "arg0", ty0 "Meta")]; fn_ret := None;
+                            fn_emits := [PVariant (L "Status") (L "Active") true; PVariant (L "Mode") (L "On") false;
+                                         PNew [L "events"] (L "Built"); PStruct (L "Progress")] |}])].
+
 (* a diamond over three files with an enum, a cycle, an error-arm-only type, an unreachable serde type,
    a non-serde type mentioned by a field, a channel and an event emitted by a helper function *)
 Definition sample : project :=
